@@ -268,6 +268,15 @@ def ev_typed(ind):
     return (tot, float(len(ind)))
 
 
+def ev_sub(ind):
+    func = gp.compile(ind, GP_STATE["pset"])
+    tot = 0
+    for r in GP_STATE["rows"]:
+        v = int(func(*r[:3]))
+        tot += min(abs(v - r[3]), 1000)
+    return (float(tot),)
+
+
 def ev_spam(ind):
     func = gp.compile(ind, GP_STATE["pset"])
     rows = GP_STATE["rows"]
@@ -977,6 +986,28 @@ class GPTyped(GPSym):
             pset.addEphemeralConstant("ephF", eph_flag, Flag)
             creator.create("FitnessC17", base.Fitness, weights=(-1.0, -1.0))
             tb.register("evaluate", ev_typed)
+        elif variant == "sub":
+            # subclass-related types (bool < int); the super type int is first mentioned AFTER several entries of the subtype
+            # exist, so PrimitiveSetTyped._add builds pset.primitives[int] / pset.terminals[int] from the inherited entries
+            pset = gp.PrimitiveSetTyped("MAIN", [bool, bool, bool], int)
+            pset.addPrimitive(operator.and_, [bool, bool], bool)
+            pset.addPrimitive(operator.or_, [bool, bool], bool)
+            pset.addPrimitive(operator.not_, [bool], bool)
+            pset.addPrimitive(operator.xor, [bool, bool], bool)
+            pset.addTerminal(True, bool)
+            pset.addTerminal(False, bool)
+            pset.addPrimitive(operator.add, [int, int], int)
+            pset.addPrimitive(operator.mul, [int, int], int)
+            pset.addPrimitive(if_then_else, [bool, int, int], int)
+            pset.addPrimitive(operator.lt, [int, int], bool)
+            pset.addEphemeralConstant("randint17", partial(random.randint, -3, 3), int)
+            pset.addTerminal(2, int)
+            rows_rng = random.Random(11)
+            GP_STATE["rows"] = [[bool(rows_rng.getrandbits(1)) for _ in range(3)] for _ in range(8)]
+            for r in GP_STATE["rows"]:
+                r.append(int(r[0]) + 2 * int(r[1]) - int(r[2]))
+            creator.create("FitnessC17", base.Fitness, weights=(-1.0,))
+            tb.register("evaluate", ev_sub)
         else:
             pset = gp.PrimitiveSetTyped("MAIN", [float, float, float], bool)
             pset.addPrimitive(operator.and_, [bool, bool], bool)
